@@ -376,6 +376,55 @@ def bounded_isa(rng, tier):
     return {"evaluations": 8, "distinct_nontrivial": 8, "failures": failures, "samples": samples[:3], "exhaustive": True}
 
 
+@bounded(P, "standard-atmosphere-beyond-the-table", "standard_atmosphere in height (-2 .. 120 km) and pressure (1300 hPa .. 1e-3 Pa) addressing against "
+         "an independent piecewise-linear evaluation of the table with its outermost layers continued linearly (the documented behaviour "
+         "outside 0-85 km); pressure2height(p) without a temperature on log-spaced grids reaching beyond both ends of the table: starts at "
+         "0, strictly increasing, equal to the layer-wise hydrostatic sum over that temperature; 40 (quick) / 400 (thorough) grids")
+def bounded_isa_beyond(rng, tier):
+    import math
+    h = [-610.0, 11000.0, 20000.0, 32000.0, 47000.0, 51000.0, 71000.0, 84852.0]
+    pt = [108900.0, 22632.0, 5474.9, 868.02, 110.91, 66.939, 3.9564, 0.3734]
+    tk = [19.0 + 273.15, -56.5 + 273.15, -56.5 + 273.15, -44.5 + 273.15, -2.5 + 273.15, -2.5 + 273.15, -58.5 + 273.15, -86.28 + 273.15]
+
+    def lin(xs, ys, x):
+        """piecewise linear through (xs, ys), xs increasing; the first / last segment continued beyond the ends"""
+        k = 0
+        while k < len(xs) - 2 and x > xs[k + 1]:
+            k += 1
+        return ys[k] + (ys[k + 1] - ys[k]) * (x - xs[k]) / (xs[k + 1] - xs[k])
+    lp = [math.log(v) for v in pt]
+    T_of_h = lambda z: lin(h, tk, z)
+    T_of_p = lambda p_: lin(lp[::-1], tk[::-1], math.log(p_))
+    evals, failures, samples, distinct = 0, [], [], set()
+    for r in range(40 if tier == "quick" else 400):
+        z = rng.choice([-2000.0, -610.0, 0.0, 84852.0, 90000.0, 120000.0, rng.uniform(-2000, 120000)])
+        p_ = rng.choice([130000.0, 108900.0, 0.3734, 0.1, 0.005, 0.001, math.exp(rng.uniform(math.log(1e-3), math.log(1.3e5)))])
+        evals += 2
+        a, b = float(A.standard_atmosphere(z)), float(A.standard_atmosphere(p_, coordinates="pressure"))
+        if abs(a - T_of_h(z)) > 1e-7:
+            failures.append({"height": z, "T": a, "expected": T_of_h(z)})
+        if abs(b - T_of_p(p_)) > 1e-7:
+            failures.append({"pressure": p_, "T": b, "expected": T_of_p(p_)})
+        # pressure2height without a temperature, grids beyond both ends of the table
+        n = rng.choice([5, 30, 200])
+        p_hi, p_lo = rng.choice([101325.0, 108900.0, 125000.0]), rng.choice([10.0, 0.3734, 0.05, 0.001])
+        grid = _np.exp(_np.linspace(math.log(p_hi), math.log(p_lo), n))
+        evals += 1
+        distinct.add((n, p_hi, p_lo))
+        zz = A.pressure2height(grid)
+        Tg = [T_of_p(float(v)) for v in grid]
+        want = [0.0]
+        for k in range(n - 1):
+            rho = 0.5 * (grid[k] / (constants.gas_constant_dry_air * Tg[k]) + grid[k + 1] / (constants.gas_constant_dry_air * Tg[k + 1]))
+            want.append(want[-1] - (grid[k + 1] - grid[k]) / (rho * constants.g))
+        if zz.shape != (n,) or zz[0] != 0 or _np.any(_np.diff(zz) <= 0) or not _np.allclose(zz, want, rtol=1e-9, atol=1e-6):
+            failures.append({"grid": [p_hi, p_lo, n], "problem": "pressure2height(p) without T: z[0] = %r, min step %r, top %r (expected %r)"
+                             % (float(zz[0]), float(_np.diff(zz).min()), float(zz[-1]), want[-1])})
+        elif len(samples) < 3:
+            samples.append({"grid": [p_hi, p_lo, n], "top_m": float(zz[-1])})
+    return {"evaluations": evals, "distinct_nontrivial": len(distinct), "failures": failures[:5], "samples": samples}
+
+
 @bounded(P, "integrate-column-nd", "arrays of rank 1..4 with sides 2..5, EVERY axis (positive and negative), x = None / 1-d / n-d, "
          "compared element by element with a per-column trapezoid sum (rank > 2 is outside the proved tier)")
 def bounded_nd(rng, tier):
